@@ -90,6 +90,16 @@ func c14Vars(log *[]string, jfName string) jet.VarMap {
 		return r.note("fv", args...)
 	})
 	vars.Set("g2", func(n int, s string) string { return r.note("g2", n, s) })
+	vars.Set("id", func(x interface{}) interface{} { return x })
+	ticks := 0
+	vars.Set("tick", func() string { ticks++; return fmt.Sprintf("k%d", ticks) })
+	vars.Set("kname", c14Name("named"))
+	vars.Set("nilfn", (func(string) string)(nil))
+	vars.Set("niljf", jet.Func(nil))
+	vars.Set("fholder", struct{ F func(string) string }{})
+	vars.Set("xsl", []int{1})
+	vars.Set("arr4", func(p *[4]int) int { return p[0] })
+	vars.Set("arr2v", func(p [2]int) int { return p[0] })
 	// variadic tails of an interface type that has methods: only values that implement it are arguments
 	vars.Set("fstr", func(a string, rest ...fmt.Stringer) string { return r.note("fstr", a, len(rest)) })
 	vars.Set("ferr", func(a string, rest ...error) string { return r.note("ferr", a, len(rest)) })
@@ -184,7 +194,10 @@ type c14Case struct {
 
 func c14GenArg(t *rapid.T, kind byte, label string) c14Arg {
 	if kind == 'S' {
-		switch rapid.IntRange(0, 2).Draw(t, label+"S") {
+		switch rapid.IntRange(0, 3).Draw(t, label+"S") {
+		case 3: // handed through a function declared to return interface{}: the value inside is the argument
+			s := rapid.SampledFrom([]string{"a", "bc", ""}).Draw(t, label+"idlit")
+			return c14Arg{Src: "id(" + strconv.Quote(s) + ")", S: s}
 		case 0:
 			return c14Arg{Src: "sv", S: "strvar"}
 		default:
@@ -192,7 +205,9 @@ func c14GenArg(t *rapid.T, kind byte, label string) c14Arg {
 			return c14Arg{Src: strconv.Quote(s), S: s}
 		}
 	}
-	switch rapid.IntRange(0, 2).Draw(t, label+"I") {
+	switch rapid.IntRange(0, 3).Draw(t, label+"I") {
+	case 3:
+		return c14Arg{Src: "id(iv)", I: 7, IsI: true}
 	case 0:
 		return c14Arg{Src: "iv", I: 7, IsI: true}
 	default:
@@ -212,6 +227,11 @@ func genC14(t *rapid.T) c14Case {
 			`{{ f1() }}`, `{{ f2("a") }}`, `{{ "a" | f2 }}`, `{{ f3("a", "b", "c", "d") }}`, `{{ "a" | f1: "b" }}`, `{{ pobj.PJoin("a") }}`,
 			`{{ f1(nothing) }}`, `{{ nilv | f1 }}`, `{{ f2("a", nilv) }}`, `{{ fv("a", nilv) }}`, `{{ f2("a", "b") }}`, `{{ g2("a", "b") }}`, `{{ fv("a", 1, "x") }}`,
 			`{{ f2("a", _) }}`, `{{ "a" | f3(_, _, "c") }}`,
+			// a placeholder without anything piped in, also for jet.Func values and built-ins that are jet.Funcs
+			`{{ jf(_, "x") }}`, `{{ uf("a", _) }}`, `{{ map("a", _) }}`, `{{ slice(_) }}`, `{{ pf(_, 1) }}`,
+			// functions that are nil; arguments that only look convertible
+			`{{ nilfn("a") }}`, `{{ "a" | nilfn }}`, `{{ nilfn: "a" }}`, `{{ fholder.F("a") }}`, `{{ "a" | fholder.F }}`, `{{ niljf("a") }}`,
+			`{{ arr4(xsl) }}`, `{{ xsl | arr4 }}`, `{{ arr2v(xsl) }}`,
 			`{{ fstr("a", "b") }}`, `{{ fstr("a", strg, 1) }}`, `{{ fstr: "a", iv }}`, `{{ "x" | fstr("a", _) }}`, `{{ sv | fstr: "a" }}`, `{{ ferr("a", "b") }}`, `{{ ferr("a", strg) }}`, `{{ iv | ferr("a", _) }}`, `{{ ferr: "a", mm }}`,
 			// built-ins handed values of the wrong kind (also where treating them as 0 would give a valid range)
 			`{{ range ints("2", 5) }}x{{ end }}`, `{{ range ints(-2, "x") }}x{{ end }}`, `{{ range ints(true, 3) }}x{{ end }}`, `{{ range "1" | ints: 4 }}x{{ end }}`, `{{ range ints(sv, iv) }}x{{ end }}`,
@@ -407,7 +427,7 @@ func (c c14Case) apply() (string, []string) {
 				}
 				a := st.Args[k]
 				switch {
-				case a.IsI && a.Src == "iv":
+				case a.IsI && (a.Src == "iv" || a.Src == "id(iv)"):
 					raw = append(raw, a.I)
 				case a.IsI:
 					raw = append(raw, float64(a.I))
@@ -544,6 +564,11 @@ func genC14Builtin(t *rapid.T) c14Case {
 		{"{{ array(" + q(p) + ", " + q(s) + ")[0] }}", esc(p)},
 		{"{{ range i, v := ints(" + fmt.Sprint(n) + ", " + fmt.Sprint(n+3) + ") }}{{ i }}:{{ v }};{{ end }}", fmt.Sprintf("0:%d;1:%d;2:%d;", n, n+1, n+2)},
 		{"{{ " + q(s) + " | upper | lower | len }}", fmt.Sprint(len(strings.ToLower(strings.ToUpper(s))))},
+		// arguments of built-ins are evaluated once each, left to right (tick counts its calls), and a key of a
+		// defined string type is a key like any other
+		{"{{ map(tick(), 1) }}", "map[k1:1]"}, {"{{ len(map(tick(), tick())) }}{{ tick() }}", "1k3"}, {"{{ slice(tick(), tick())[1] }}{{ tick() }}", "k2k3"},
+		{"{{ map(kname, " + fmt.Sprint(n) + ").named }}", fmt.Sprint(n)}, {"{{ upper(tick()) }}{{ tick() | lower }}", "K1k2"},
+		{"{{ upper(id(" + q(s) + ")) }}", esc(strings.ToUpper(s))}, {"{{ id(" + q(s) + ") | lower }}", esc(strings.ToLower(s))}, {"{{ repeat(id(" + q(p) + "), id(iv)) | len }}", fmt.Sprint(7 * len(p))},
 	}
 	b := list[rapid.IntRange(0, len(list)-1).Draw(t, "builtin")]
 	return c14Case{Kind: "builtin", Tpl: b.tpl, Want: b.want, Expr: b.tpl}
